@@ -35,6 +35,10 @@ def run(ctx):
     for o in c13.run(ctx).obligations:
         if o["rule"] == "C13-R3":
             res.check(o["ok"], "C11-R4", "builders:" + o["key"], o["loc"], o["detail"], o["detail"])
+        elif o["rule"] == "C13-R1" and o["key"].endswith("header-writes"):
+            # setData is the setter of the data field: of the header it rewrites the length / DLC bytes that describe the data and nothing else
+            # (a flag 'kept consistent' with the new length is a second field changed by the call)
+            res.check(o["ok"], "C11-R4", "builders:" + o["key"], o["loc"], o["detail"], o["detail"])
     res.floor("C11-R4", 8)
     res.floor("C11-R1", 150)
     res.floor("C11-R2", 150)
